@@ -2107,7 +2107,7 @@ public:
       HashtableEntryBaseType * e = this->GetEntry(this->ComputeHash(key), key);
       if (e)
       {
-         this->MoveIterationEntryToCorrectPositionAux(e);
+         this->MoveIterationEntryToCorrectPosition(_entryCompareFunctor, e, _compareCookie);  // explicit request:  done whether or not auto-sort is enabled
          return B_NO_ERROR;
       }
       else return B_DATA_NOT_FOUND;
@@ -2141,7 +2141,7 @@ private:
    // Curiously Recurring Template Pattern that Hashtable uses to implement polymorphic behavior at compile time.
    friend class HashtableMid<KeyType,ValueType,HashFunctorType,SubclassType>;
    void InsertIterationEntryAux(HashtableEntryBaseType * e) {this->InsertIterationEntryInOrder(_entryCompareFunctor, e, _autoSortEnabled, _compareCookie);}
-   void MoveIterationEntryToCorrectPositionAux(HashtableEntryBaseType * e) {this->MoveIterationEntryToCorrectPosition(_entryCompareFunctor, e, _compareCookie);}
+   void MoveIterationEntryToCorrectPositionAux(HashtableEntryBaseType * e) {if (_autoSortEnabled) this->MoveIterationEntryToCorrectPosition(_entryCompareFunctor, e, _compareCookie);}  // called when Put() gives an existing key a new value
    void DisableAutoSort() {_autoSortEnabled = false;}
    void SortAux() {this->SortByEntry(_entryCompareFunctor, _compareCookie);}
 
